@@ -42,12 +42,23 @@ Findings (proposed_fixes/C19-usage-retract.*, C19-page-width-without-length.*; k
   * RetractWords after a backward ORG: DeleteChunk cuts nothing at the lower end of an area (spurious warning 90)
     and drops the upper part when it has to split one (occupied address missing from the usage list);
   * PAGE 0,w: WrLstLine ignores the width when the length is 0.
-Mutations of the real code tried (scratch copy, all keep ctest green), all caught:
-  r1 asmpars.c AddReference: no OccNum++ for a repeated line        XREF "fewer uses listed" + expectation
-  r2 chunks.c AddChunk: Overlap() without the touching case          USE "areas not ascending / not maximal" ...
-  r3 asmsub.c WrLstLine: `>=` PageLength compare / page length + 1   PAGES "more lines than the page length"
-  r4 asmpars.c PrintSectionList: no extra indentation for children   SECTS "not the tree"
-  r5 asmsub.c BookKeeping: Warn only if ActPC != SegCode             STMT "no warning 90"
+Findings, continued: * CP-1600 `ZERO n` is booked twice (codecp1600.c DecodeRES + WriteCode): warning 90 without an
+    overlap, t_cp1600 line 106 (proposed_fixes/C19-cp1600-zero-double-bookkeeping.*).
+On a copy of /repo with the three diffs the phase reports nothing (no KNOWN-FINDING line, no violation).
+Mutations of the real code tried (scratch copies /tmp/glist-m*, every one keeps the 201 ctest tests green):
+  m1 asmpars.c AddReference: no OccNum++ for a repeated line            caught: XREF "fewer uses listed than look-ups"
+  m2 chunks.c SetChunk: merged length one short                         caught: USE "code not listed", IMAGE, STMT
+                                                                         warning without overlap; two golden sources
+                                                                         never finish PrintChunk ("no finite listing")
+  m3 asmsub.c WrLstLine: form feed at PageLength + 1                     caught: PAGES "more lines than the page length"
+  m4 asmpars.c PrintSectionList_PSection: children not indented deeper   caught: SECTS "not the tree of the sections"
+  m5 asmsub.c BookKeeping: Warn only if ActPC != SegCode                 caught: STMT "occupied already, no warning 90"
+  m6 asmpars.c AddReference: file number of the main file               caught: XREF "more uses listed", XSYM / XEND
+                                                                         "a use ... is not listed"
+  m8 chunks.c Overlap(): touching areas are not merged                   SPEC-DRIFT only ("adjacent areas are not merged":
+                                                                         the manual does not demand maximal areas)
+  m7 asmsub.c PrintChunk: NewMin = end + 1                               equivalent (areas in the list never touch)
+./check C19 --selftest: one token of a report / one hook record changed -> TLC rejects (10 variants).
 """
 import concurrent.futures as cf
 import os
@@ -371,7 +382,6 @@ def run_phase(rep, bld, tier):
                 stats["too_large"] += 1
                 continue
             rep.evaluated()
-            has_page = any(e["a"] == "STMT" and False for e in res["ev"])
             text = res["lst"].decode("latin-1")
             pagestmt = _page_statements(text)
             L, W = (60, 0) if not pagestmt else ((0, 0) if pagestmt == ["0"] else (-1, -1))
@@ -453,6 +463,8 @@ def _violation(rep, m, res, what, e, why, case_ev):
         seg = e.get("seg", 1)
         if any(x["a"] == "CHUNK" and x["kind"] == "retract" and (x["seg"] == seg or e["a"] == "USEEND") for x in case_ev):
             dev = "usage-retract"                 # a list of areas that went through chunks.c DeleteChunk
+    if e["a"] == "STMT" and e.get("opname") == "ZERO" and why.startswith("warning 90") and dev == "none":
+        dev = "cp1600-zero-double-bookkeeping"
     if m["kind"] == "generated":
         for fn, txt in render(m["beh"], m["dialect"], m["paged"]).items():
             files[fn] = txt
